@@ -215,7 +215,7 @@ fn free_tcp6_port() -> u16 {
 }
 
 fn c16(args: &Args) -> ! {
-    let mut rep = Report::new("C16", "configuration matrix, one OS schedule per case: (1) transports {unix path, unix path;mode=0600, unix:@abstract, tcp:127.0.0.1:port, tcp:[::1]:port, with_activate(service), with_bridge(service --stdio)} x every sequence of client operations of length<=2 (thorough 3) over {GetInfo, Echo, Fail, Stream+drain, oneway Echo, unknown interface} through the real client API in a capped subprocess, results compared with an in-memory run of the same operations against the same interface; (2) activation contract read back from the spawned service (descriptor 3 listening unix socket, LISTEN_FDS/LISTEN_FDNAMES/LISTEN_PID/VARLINK_ADDRESS) with the parent's lowest free descriptor {3, >3}; (1b) both filesystem socket paths carry a stale socket file when the server starts; address and with_activate transports open a second connection through Connection::address(); (2b) a foreign activator hands a blocking / O_NONBLOCK listening socket as descriptor 3 to a service running listen() with the default configuration, three clients in a row must be served; (3) server side: LISTEN_FDS x LISTEN_PID x LISTEN_FDNAMES x address scheme (576 cases, all in both tiers) against the sd_listen_fds reference; (4) address strings scheme x tail: client and server agree on InvalidAddress; non-trivial = distinct (part, configuration, sequence)");
+    let mut rep = Report::new("C16", "configuration matrix, one OS schedule per case: (1) transports {unix path, unix path;mode=0600, unix:@abstract, tcp:127.0.0.1:port, tcp:[::1]:port, with_activate(service), with_bridge(service --stdio)} x every sequence of client operations of length<=2 (thorough 3) over {GetInfo, Echo, Fail, Stream+drain, oneway Echo, unknown interface} through the real client API in a capped subprocess, results compared with an in-memory run of the same operations against the same interface; (2) activation contract read back from the spawned service (descriptor 3 listening unix socket, LISTEN_FDS/LISTEN_FDNAMES/LISTEN_PID/VARLINK_ADDRESS) with the parent's lowest free descriptor {3, >3}; (1b) both filesystem socket paths carry a stale socket file when the server starts; address and with_activate transports open a second connection through Connection::address(); (2b) a foreign activator hands a blocking / O_NONBLOCK listening socket as descriptor 3 to a service running listen() with the default configuration, three clients in a row must be served; (2c) re-activation: the service leaves when idle and is started again on the activator's socket, whose file must survive it; (3) server side: LISTEN_FDS x LISTEN_PID x LISTEN_FDNAMES x address scheme (576 cases, all in both tiers) against the sd_listen_fds reference; (4) address strings scheme x tail: client and server agree on InvalidAddress; non-trivial = distinct (part, configuration, sequence)");
     let dir = tempfile::Builder::new().prefix("px16").tempdir_in("/dev/shm").or_else(|_| tempfile::tempdir()).unwrap();
     let d = dir.path().to_path_buf();
     let replay = args.replay_case();
@@ -376,6 +376,63 @@ fn c16(args: &Args) -> ! {
                     rep.violation(&format!("C16/foreign-activator/{}", if nonblock { "nonblocking-listener" } else { "blocking-listener" }), &format!("three clients in a row against a service activated with descriptor 3 ({}): {}", if nonblock { "O_NONBLOCK set" } else { "blocking" }, Value::Array(results)), case);
                 }
             }
+        }
+    }
+    // ---- (2c) re-activation: the activator keeps the listening socket, the service leaves when idle and is started again
+    // for the next client; the socket file belongs to the activator and must survive the service
+    if want_part("re-activation") && (args.shard == 2 % args.nshards || replay.is_some()) {
+        let case = json!({"part": "re-activation"});
+        rep.eval(Some(&case.to_string()));
+        let path = d.join("react");
+        let _ = std::fs::remove_file(&path);
+        let l = std::os::unix::net::UnixListener::bind(&path).unwrap_or_else(|e| machinery(&format!("bind: {}", e)));
+        let lfd = std::os::unix::io::AsRawFd::as_raw_fd(&l);
+        let addr = format!("unix:{}", path.display());
+        let mut rounds = vec![];
+        for round in 0..3 {
+            let script = format!("LISTEN_PID=$$ exec {} serve --iface org.verif.a --idle 1 --varlink={}", svc.display(), addr);
+            let mut cmd = Command::new("/bin/sh");
+            cmd.arg("-c").arg(&script).env("LISTEN_FDS", "1").env("LISTEN_FDNAMES", "varlink").stdin(Stdio::null()).stdout(Stdio::null()).stderr(Stdio::null());
+            unsafe {
+                use std::os::unix::process::CommandExt;
+                cmd.pre_exec(move || {
+                    if lfd != 3 {
+                        if libc::dup2(lfd, 3) < 0 {
+                            return Err(std::io::Error::last_os_error());
+                        }
+                    } else {
+                        let fl = libc::fcntl(3, libc::F_GETFD);
+                        libc::fcntl(3, libc::F_SETFD, fl & !libc::FD_CLOEXEC);
+                    }
+                    Ok(())
+                });
+            }
+            let mut child = cmd.spawn().unwrap_or_else(|e| machinery(&format!("cannot spawn the activated service: {}", e)));
+            let mut c = Command::new(self_exe());
+            c.args(["run-client", "--transport", "address", "--target", &addr, "--ops", &format!("[\"echo:r{}\"]", round)]);
+            let (status, out, _e) = run_capped(c, None, Duration::from_secs(6));
+            let v: Value = serde_json::from_slice(&out).unwrap_or(Value::Null);
+            // the service leaves by itself after its idle timeout
+            let t0 = Instant::now();
+            let mut left = false;
+            while t0.elapsed() < Duration::from_secs(6) {
+                if let Ok(Some(_)) = child.try_wait() {
+                    left = true;
+                    break;
+                }
+                std::thread::sleep(Duration::from_millis(20));
+            }
+            if !left {
+                let _ = child.kill();
+                let _ = child.wait();
+            }
+            rounds.push(json!({"round": round, "status": status, "results": v["results"], "connect_error": v["connect_error"], "service_left_when_idle": left, "socket_file_still_there": path.exists()}));
+        }
+        drop(l);
+        rep.outcome(&format!("{:?}", rounds.iter().map(|r| r["status"].clone()).collect::<Vec<_>>()));
+        let ok = rounds.iter().enumerate().all(|(k, r)| r["status"] == "exit:0" && r["results"] == json!([{"ok": {"v": format!("r{}", k)}}]) && r["socket_file_still_there"] == json!(true));
+        if !ok {
+            rep.violation("C16/re-activation", &format!("the activator keeps the socket, the service is started for each client and leaves when idle: {}", Value::Array(rounds)), case);
         }
     }
     if want_part("activation") && args.shard == 0 {
@@ -615,6 +672,13 @@ fn c20(args: &Args) -> ! {
         scenarios.push((format!("failmid-v{}", vi), "FailMid", json!({"vs": [v, {"i": 1}], "name": "org.verif.a.Broken", "params": {"why": "mid"}}), vec![v.clone(), json!({"i": 1})], false, vec!["org.verif.a.Broken".into(), "mid".into()], true));
         scenarios.push((format!("closemid-v{}", vi), "CloseMid", json!({"vs": [v]}), vec![v.clone()], false, vec![], true));
     }
+    // streams whose final reply spells out "continues": false
+    for k in 0..=2usize {
+        let vs: Vec<Value> = (0..k).map(|i| json!({"i": i})).collect();
+        let expect = if k == 0 { vec![json!({})] } else { vs.clone() };
+        scenarios.push((format!("more{}-explicit-false", k), "Stream", json!({"vs": vs, "explicit_false": true}), expect, true, vec![], true));
+    }
+    scenarios.push(("failmid-explicit-false".into(), "FailMid", json!({"vs": [{"i": 0}], "name": "org.verif.a.Broken", "params": {"why": "mid"}, "explicit_false": true}), vec![json!({"i": 0})], false, vec!["org.verif.a.Broken".into(), "mid".into()], true));
     scenarios.push(("error-noparams".into(), "Fail", json!({"name": "org.verif.a.Plain"}), vec![], false, vec!["org.verif.a.Plain".into()], false));
     scenarios.push(("error-params".into(), "Fail", json!({"name": "org.verif.a.WithArgs", "params": {"reason": "because", "n": 7}}), vec![], false, vec!["org.verif.a.WithArgs".into(), "because".into(), "7".into()], false));
     scenarios.push(("error-more".into(), "Fail", json!({"name": "org.verif.a.Plain"}), vec![], false, vec!["org.verif.a.Plain".into()], true));
@@ -1127,7 +1191,7 @@ fn c18(args: &Args) -> ! {
 /// listen_multiplex). Request streams are written to its socket under enumerated write schedules; the replies must
 /// not depend on the schedule.
 fn c02m(args: &Args) -> ! {
-    let mut rep = Report::new("C02", "the repository's reference caller of the documented slice-plus-tail API, the real `ping --multiplex` example server as a process, one OS schedule per case: pipelined Ping streams {3 small; small + 9000-byte; 8150..8200-byte request (crossing the 8 KiB read size) + small; 60 small; 300 small (quick 120)} x write schedules {one write; a cut at every offset of a window around each message boundary and around 8192 / 16384, with a pause; a cut at every k-th byte (k = 1 for the short stream)}: exactly one pong per ping, in order, with the ping's own string; non-trivial = distinct (stream, schedule)");
+    let mut rep = Report::new("C02", "the repository's reference caller of the documented slice-plus-tail API, the real `ping --multiplex` example server as a process, one OS schedule per case: pipelined Ping streams {3 small; small + 9000-byte; 8150..8200-byte request (crossing the 8 KiB read size) + small; bursts of exactly 8192 / 16384 bytes in total; 60 small; 300 small (quick 120)} x write schedules {one write; a cut at every offset of a window around each message boundary and around 8192 / 16384, with a pause; a cut at every k-th byte (k = 1 for the short stream)}: exactly one pong per ping, in order, with the ping's own string; non-trivial = distinct (stream, schedule)");
     let ping = Path::new("/verif/.target/repo/debug/ping");
     if !ping.exists() {
         machinery("ping example binary missing (the driver builds it)");
@@ -1153,6 +1217,12 @@ fn c02m(args: &Args) -> ! {
     streams.push(("small+9000".into(), vec!["s".into(), pad(9000, "L"), "t".into()]));
     for n in [8150usize, 8191, 8192, 8193, 8200] {
         streams.push((format!("{}+small", n), vec![pad(n, "B"), "after".into()]));
+    }
+    // bursts whose *total* length is an exact multiple of the server's 8 KiB read size (nothing follows: the replies must come anyway)
+    for total in [8192usize, 16384] {
+        let first = pingreq("first").len();
+        streams.push((format!("total{}", total), vec!["first".into(), pad(total - first, "Z")]));
+        streams.push((format!("total{}-single", total), vec![pad(total, "Y")]));
     }
     streams.push(("60small".into(), (0..60).map(|i| format!("p{}", i)).collect()));
     let many = if args.thorough() { 300 } else { 120 };
